@@ -561,7 +561,7 @@ func c06Runtime(c *Ctx, r *gen.R) error {
 	n := c.N(4, 30)
 	per := c.N(6, 25)
 	bt2, items2, err := buildBatch(n, func(i int) *ir.Request {
-		return gen.GenRuntimeFile(r.Fork(fmt.Sprint("c06rt-", i)), i, gen.RuntimeOpts{ManyMethods: i%2 == 0, RenamedQuery: true, TrailingSlash: i%3 == 0, BytesRules: true})
+		return gen.GenRuntimeFile(r.Fork(fmt.Sprint("c06rt-", i)), i, gen.RuntimeOpts{ManyMethods: i%2 == 0, RenamedQuery: true, TrailingSlash: i%3 == 0, BytesRules: true, JSONNames: i%2 == 1})
 	}, scratch.AddOpts{GoHTTP: true, GoClient: true}, false)
 	if err != nil {
 		return err
